@@ -163,7 +163,10 @@ FLOAT_WORDS = ["inf", "nan", "Infinity", "NaN", "INF"]
 DIGIT_LOOKALIKES = ["\uff12\uff10\uff10\uff11-01-01", "1\uff12:00", "12:0\u0663:00Z",
                     "12:00:0\u0660.5", "\u0663", "1\u0663", "1.\u0665", "\u00b2", "2001-00\u0661",
                     "\uff11\uff12", "2001-01-0\u0661T12:00", "12:00+0\u0665", "\u0661\u0662:\u0660\u0660",
-                    "2001-\u0660\u0661-01", "\u0967\u0968", "1\u0967e5", "\u00bd", "\u2460", "23:59:6\u0660", "\uff0b5", "\u22125"]
+                    "2001-\u0660\u0661-01", "\u0967\u0968", "1\u0967e5", "\u00bd", "\u2460", "23:59:6\u0660", "\uff0b5", "\u22125",
+                    # ... and words that only casefold / upper-case to a keyword
+                    "fal\u017fe", "FAL\u017fE", "beg\u0131n_group", "BEG\u0131N_OBJECT",
+                    "end_\u0261roup", "\uff4e\uff55\uff4c\uff4c", "tr\u1e9ee"]
 
 
 # Words made of characters that Python takes for white space (str.isspace,
@@ -419,7 +422,14 @@ class HQ(tuple):
 # --------------------------------------------------------------------------
 # statements and documents
 # --------------------------------------------------------------------------
+KEYWORD_LOOKALIKE_NAMES = ["beg\u0131n_group", "BEG\u0131N_OBJECT", "fal\u017fe",
+                           "\uff27\uff32\uff2f\uff35\uff30", "ob\u0458ect"]
+
+
 def gen_name(rng, reader):
+    if reader == "default" and rng.random() < 0.04:
+        # names that only casefold / upper-case / look like a keyword
+        return rng.choice(KEYWORD_LOOKALIKE_NAMES)
     return rng.choice(NAMES_ODL if reader in ("ODL", "PDS3") else NAMES_PVL)
 
 
@@ -435,7 +445,11 @@ def gen_statements(rng, reader, doc, toks, tree, depth, n):
         if tree and rng.random() < 0.06:
             # the name of an earlier statement of this block in another
             # letter case (names are case-sensitive to every reader)
-            name = rng.choice(tree)[0].swapcase()
+            other = rng.choice(tree)[0]
+            # (only where swapping the case is its own inverse: 'ı'.swapcase()
+            # is 'I', which would turn a look-alike into the real keyword)
+            if other.isascii():
+                name = other.swapcase()
         if rng.random() < 0.22 and depth < 3:
             kind = rng.choice(("group", "object"))
             base = kind.upper()
